@@ -23,6 +23,8 @@ BUILD = os.path.join(VERIF, '.build', 'verus')
 
 PROOF_FAILURE_KINDS = [
     'postcondition not satisfied',
+    'precondition not met',
+    'requires not satisfied',
     'precondition not satisfied',
     'possible arithmetic underflow/overflow',
     'possible division by zero',
